@@ -7,6 +7,7 @@ import time
 import traceback
 
 JOBS = {}
+EXTRA_MODULES = ('jobs_csv', 'jobs_text', 'jobs_deps', 'jobs_misc', 'jobs_c08', 'jobs_c13', 'jobs_c14', 'jobs_c15', 'jobs_c16')
 
 
 def job(*props):
@@ -19,7 +20,7 @@ def job(*props):
 
 def _load_all():
     from . import jobs_rel   # noqa: F401
-    for m in ('jobs_csv', 'jobs_text', 'jobs_deps', 'jobs_misc'):
+    for m in EXTRA_MODULES:
         try:
             __import__('bounded.' + m)
         except ImportError as e:
@@ -64,7 +65,7 @@ def replay(path):
 def replay_case(case):
     from . import jobs_rel
     mods = [jobs_rel]
-    for m in ('jobs_csv', 'jobs_text', 'jobs_deps', 'jobs_misc'):
+    for m in EXTRA_MODULES:
         try:
             mods.append(__import__('bounded.' + m, fromlist=['x']))
         except ImportError:
@@ -74,7 +75,7 @@ def replay_case(case):
         f = getattr(m, 'replay_' + str(kind), None)
         if f is not None:
             res = f(case)
-            print(json.dumps(res, indent=1, default=str)[:3000])
+            print(json.dumps(res, indent=1, default=lambda o: '<%s object>' % type(o).__name__)[:3000])
             if res.get('fails'):
                 print('REPLAY: still fails on the current tree')
                 return 1
